@@ -85,6 +85,16 @@ func matrixFinish(c *Ctx, w *matrixWork) {
 		name := r.t.goos + "/" + r.t.goarch
 		c.D.Evaluations++
 		if r.err != nil {
+			// a target for which the toolchain cannot even build standard-library packages is not
+			// one "the toolchain supports": counted, not reported
+			probe := exec.Command("go", "build", "image", "bytes", "encoding/binary", "sync")
+			probe.Dir = repoDir()
+			probe.Env = append(os.Environ(), "GOOS="+r.t.goos, "GOARCH="+r.t.goarch, "CGO_ENABLED=0")
+			if pout, perr := probe.CombinedOutput(); perr != nil {
+				c.Count("build/toolchain-cannot-build-std")
+				c.D.Notes = append(c.D.Notes, "build matrix: "+name+" skipped, the toolchain cannot build std for it: "+strings.Join(strings.Fields(tail(string(pout), 300)), " "))
+				continue
+			}
 			c.Count("build/FAILED")
 			c.Violate("build:"+name, "go build ./... fails for GOOS="+r.t.goos+" GOARCH="+r.t.goarch,
 				map[string]any{"cmd": "GOOS=" + r.t.goos + " GOARCH=" + r.t.goarch + " go build ./...", "compiler_output": tail(r.out, 3000)})
@@ -98,8 +108,10 @@ func matrixFinish(c *Ctx, w *matrixWork) {
 	c.D.Evaluations++
 	if w.vetErr != nil {
 		if compileError(w.vetOut) {
-			c.Violate("vet-build:linux/386", "go vet cannot type-check the module (incl. tests) for this target",
-				map[string]any{"output": tail(w.vetOut, 3000)})
+			// test files are not part of "the module compiles": recorded only (go build ./... for the
+			// same target is what decides the clause)
+			c.Count("vet/type-errors-in-tests-or-vet-only")
+			c.D.Notes = append(c.D.Notes, "go vet linux/386 could not type-check (tests included; not a violation): "+strings.Join(strings.Fields(tail(w.vetOut, 600)), " "))
 		} else {
 			c.Count("vet/diagnostics-only")
 			c.D.Notes = append(c.D.Notes, "go vet linux/386 diagnostics (not compile errors): "+strings.Join(strings.Fields(tail(w.vetOut, 600)), " "))
